@@ -119,7 +119,7 @@ class MySQLBuilder(SQLBuilder):
             return 'CAST(', result, ' AS DOUBLE)'
         return 'json_unquote(', result, ')'
     def JSON_NONZERO(builder, expr):
-        return 'COALESCE(CAST(', builder(expr), ''' as CHAR), 'null') NOT IN ('null', 'false', '0', '""', '[]', '{}')'''
+        return 'COALESCE(CAST(', builder(expr), ''' as CHAR), 'null') NOT IN ('null', 'false', '0', '0.0', '-0.0', '""', '[]', '{}')'''
     def JSON_ARRAY_LENGTH(builder, value):
         return 'json_length(', builder(value), ')'
     def JSON_EQ(builder, left, right):
